@@ -632,6 +632,55 @@ class OpConj(Op):
         return [Shadow(a.arr, [u.conj() for u in a.axes], a.tree, a.sym.neg(a.n), a.sym, a.isdiag)]
 
 
+def _has_hard(node):
+    if node == "e":
+        return False
+    return node[0] == "h" or any(_has_hard(c) for c in node[1])
+
+
+@register
+class OpFlipCharges(Op):
+    """flip_charges(axes): (s, t) -> (-s, -t) on unfused or meta-fused legs; the same vector space, relabelled."""
+    name = "flip"
+    listed_c01 = True
+    shares = True
+
+    def gen(self, g):
+        def ok(s, v, sh):
+            return sh is not None and not sh.isdiag and sh.ndim >= 1 and any(not _has_hard(t) for t in sh.tree)
+        a = g.pick_tensor(ok)
+        if a is None:
+            return None
+        sa = g.sh(a)
+        free = [i for i, t in enumerate(sa.tree) if not _has_hard(t)]
+        if len(free) == sa.ndim and g.rng.random() < 0.25:
+            return {"op": "flip", "in": [a], "args": {"axes": None}}
+        k = g.rng.randint(1, len(free))
+        axes = g.rng.sample(free, k)
+        return {"op": "flip", "in": [a], "args": {"axes": axes if (len(axes) > 1 or g.rng.random() < 0.5) else axes[0]}}
+
+    def run(self, task, rec, ins):
+        ax = rec["args"]["axes"]
+        if ax is None:
+            return [ins[0].flip_charges()]
+        return [ins[0].flip_charges(axes=tuple(ax) if isinstance(ax, list) else ax)]
+
+    def shadow(self, task, rec, sins, outs, ins=None):
+        a = sins[0]
+        ax = rec["args"]["axes"]
+        axes = list(range(a.ndim)) if ax is None else (list(ax) if isinstance(ax, list) else [ax])
+        gr = a.groups()
+        arr, uaxes = a.arr, list(a.axes)
+        for i in axes:
+            for k in gr[i]:
+                new, perm = uaxes[k].flip_charges()
+                arr = np.take(arr, perm, axis=k)
+                uaxes[k] = new
+                if find_uref(task, new) is None:
+                    task.extra_ulegs["f%d_%d" % (rec["id"], k)] = new
+        return [Shadow(arr, uaxes, a.tree, a.n, a.sym, False)]
+
+
 @register
 class OpTranspose(Op):
     name = "transpose"
@@ -643,13 +692,13 @@ class OpTranspose(Op):
         if a is None:
             return None
         nd = g.val(a).ndim
-        kind = g.rng.choice(["transpose", "transpose", "moveaxis", "T", "H"])
+        kind = g.rng.choice(["transpose", "transpose", "transpose", "moveaxis", "moveaxis", "move_leg", "T", "H"])
         args = {"kind": kind}
         if kind == "transpose":
             p = list(range(nd))
             g.rng.shuffle(p)
             args["axes"] = p
-        elif kind == "moveaxis":
+        elif kind in ("moveaxis", "move_leg"):
             args["src"] = g.rng.randrange(-nd, nd)
             args["dst"] = g.rng.randrange(-nd, nd)
         return {"op": "transpose", "in": [a], "args": args}
@@ -673,6 +722,8 @@ class OpTranspose(Op):
             return [x.transpose(axes=tuple(a["axes"]))]
         if a["kind"] == "moveaxis":
             return [x.moveaxis(a["src"], a["dst"])]
+        if a["kind"] == "move_leg":
+            return [x.move_leg(a["src"], a["dst"])]
         if a["kind"] == "T":
             return [x.T]
         return [x.H]
@@ -1878,7 +1929,7 @@ DEFAULT_WEIGHTS = {
     "rand": 3, "rand_diag": 1, "add": 3, "scal": 1.5, "conj": 2, "transpose": 3, "tensordot": 6, "vdot": 1.5,
     "trace": 2, "broadcast": 1.5, "apply_mask": 1, "diag": 1, "add_leg": 1, "remove_leg": 1, "fuse": 3,
     "fuse_pair": 2, "unfuse": 2, "meta_to_hard": 0.7, "elementwise": 1.5, "copy": 1.5, "ncon": 1.5,
-    "factor_recombine": 1, "svd": 1, "norm": 0.5, "swap_gate": 1, "eigh_gram": 0.7, "observe": 0.3, "pair_unary": 1.5,
+    "factor_recombine": 1, "svd": 1, "norm": 0.5, "swap_gate": 1, "eigh_gram": 0.7, "observe": 0.3, "pair_unary": 1.5, "flip": 1.2,
 }
 
 
